@@ -10,7 +10,10 @@ SEPS = [('lit', ','), ('seq', ('lit', ','), ('lit', ';')), ('rx', '[,;]'),
         ('left', ('lit', ','), ('expect', ('lit', 'a'))),
         # separators whose VALUE is falsy when they match nothing (None, '', []): kept separators are values, not flags
         ('opt', ('lit', ',')), ('rx', ',?'), ('rep', ('lit', ','), None, None), ('expectnot', ('lit', ';'))]
-PRELUDE = 'X = "a" | "ba"\nN = /\\d/ |> `int`\n'
+# elements that can match the empty string: fine under an upper bound (the repetition runs to its bound, the empty
+# matches are elements like any other)
+NELEMS = [('rx', 'b?'), ('opt', ('lit', 'a')), ('alt', ('lit', 'a'), ('lit', '')), ('ref', 'Y')]
+PRELUDE = 'X = "a" | "ba"\nY = /a*/\nN = /\\d/ |> `int`\n'
 
 
 def lit_bounds(k=3):
@@ -47,8 +50,9 @@ def jobs_for(tier, rnd):
     TX = G.texts('ab,;', 5 if tier == 'thorough' else 4, extra=('a,a,a,a', 'ab,ab,ab', 'a,;a,;a', 'aaaaaa', 'a;a;a'))
     K = ('rx', '[ab,;]+')
     reps = [('rep', E, lo, hi) for E in ELEMS for lo, hi in lit_bounds(3)]
+    reps += [('rep', E, lo, hi) for E in NELEMS for lo, hi in lit_bounds(3) if hi is not None]
     seps = [('sep', E, S, o) for E in ELEMS for S in SEPS for o in G.SEPOPTS]
-    base = [x for x in reps + seps if G.well_formed(x, {'X': False})]
+    base = [x for x in reps + seps if G.well_formed(x, {'X': False, 'Y': True})]
     allj = []
     for x in base:
         for c in in_contexts(x, K):
@@ -57,8 +61,10 @@ def jobs_for(tier, rnd):
     DT = [d + s for d in ('0', '1', '2', '3', '12', '21', '20', '02', '31', '13')
           for s in ('', 'a', 'aa', 'aaa', 'aaaa', 'ab', 'abab', 'ababab', 'aab', 'ba', 'aba')]
     # the count is bound OUTSIDE and the repetition comes right after something that has just failed
-    for E in ELEMS:
+    for E in ELEMS + NELEMS:
         for form in ('{n}', '{n,}', '{,n}', '{n,2}'):
+            if E in NELEMS and form == '{n,}':
+                continue
             for ctx in ('[("-" | ({e}){f}), /[0-9ab-]*/]', '[Longest("-", ({e}){f}), /[0-9ab-]*/]', '[(ExpectNot(/./) | ({e}){f}), /[0-9ab]*/]',
                         '[Opt("-" >> "-"), ({e}){f}, /[0-9ab-]*/]'):
                 allj.append(('start = let n = N in ' + ctx.format(e=G.render(E), f=form) + '\n' + PRELUDE, DT + ['0-', '1-a', '0-a', '2-'], 'data-dependent'))
